@@ -310,7 +310,21 @@ func c20GenSynth(t *rapid.T) c20Case {
 func c20RunSynth(c c20Case) (c20Info, error) {
 	v := c20SynthVocab(c)
 	bpe := NewBytePairEncoding(c20Pattern(c.Pre), v)
-	info, err := c20Oracle(c20NewTok(bpe, v), c.text(), c.AddBOS, c.AddEOS)
+	tok := c20NewTok(bpe, v)
+	warmed := false
+	if w, ok := c20EarlierText(c, tok.specials); ok {
+		if _, werr := c20Oracle(tok, w, c.AddBOS, c.AddEOS); werr != nil {
+			return c20Info{classes: []string{"earlier_text_on_same_tokenizer"}}, fmt.Errorf("earlier text on the same tokenizer: %v", werr)
+		}
+		warmed = true
+	}
+	info, err := c20Oracle(tok, c.text(), c.AddBOS, c.AddEOS)
+	if warmed {
+		info.classes = append(info.classes, "earlier_text_on_same_tokenizer")
+		if err != nil {
+			err = fmt.Errorf("after an earlier text on the same tokenizer: %v", err)
+		}
+	}
 	info.classes = append(info.classes, "pre_"+c.Pre)
 	if c.NMerges > 0 {
 		info.classes = append(info.classes, "per_case_merges")
@@ -322,6 +336,21 @@ func c20RunSynth(c c20Case) (c20Info, error) {
 		info.classes = append(info.classes, "merge_without_token")
 	}
 	return info, err
+}
+
+// c20EarlierText: for half of the short cases with at least two parts, the text encoded on the same tokenizer before
+// the case's own text.
+func c20EarlierText(c c20Case, specials []string) (string, bool) {
+	if c.Long != nil || len(c.Parts) < 2 || len(c.text()) > 4096 || len(c.text())%2 == 1 {
+		return "", false
+	}
+	// One special literal (the last of the vocabulary's list, or another one for every fourth text) and ordinary words:
+	// the earlier text uses a special token the case's own text may lack, and none of the others.
+	w := "earlier text: caf\u00e9 \u65e5\u672c 42"
+	if len(specials) > 0 {
+		w = specials[(len(specials)-1+len(c.text())/2%4)%len(specials)] + " " + w
+	}
+	return w, w != c.text()
 }
 
 // ------------------------------------------------------------------------------------------- targets
